@@ -99,8 +99,34 @@ def normalise_atom(e):
     return ast.unparse(e), pol
 
 
-def const_of(node):
-    """Literal value of an expression node, or _UNKNOWN."""
+class Kind(tuple):
+    """Opaque value of known Python kind: Kind(('tuple', n)) / ('list', n) / ('dict', n)."""
+
+    __slots__ = ()
+
+    @property
+    def kind(self):
+        return self[1]
+
+    @property
+    def n(self):
+        return self[2]
+
+
+def mk_kind(kind, n):
+    return Kind(("__kind__", kind, n))
+
+
+def is_kind(v):
+    return isinstance(v, Kind)
+
+
+def const_of(node, opaque=False):
+    """Literal value of an expression node, or _UNKNOWN.
+
+    With ``opaque=True`` tuple / list / dict displays whose elements are not literals are
+    returned as ``Kind`` markers (their Python kind and length are known, nothing else).
+    """
     if isinstance(node, ast.Constant):
         return node.value
     if isinstance(node, ast.UnaryOp) and isinstance(node.op, ast.USub) and isinstance(node.operand, ast.Constant):
@@ -109,8 +135,12 @@ def const_of(node):
             return -v
     if isinstance(node, (ast.Tuple, ast.List)):
         vals = [const_of(e) for e in node.elts]
-        if all(v is not _UNKNOWN for v in vals):
+        if all(v is not _UNKNOWN for v in vals) and not any(isinstance(e, ast.Starred) for e in node.elts):
             return tuple(vals) if isinstance(node, ast.Tuple) else ("__list__",) + tuple(vals)
+        if opaque and not any(isinstance(e, ast.Starred) for e in node.elts):
+            return mk_kind("tuple" if isinstance(node, ast.Tuple) else "list", len(node.elts))
+    if opaque and isinstance(node, ast.Dict) and all(k is not None for k in node.keys):
+        return mk_kind("dict", len(node.keys))
     return _UNKNOWN
 
 
@@ -132,6 +162,8 @@ def eval_atom(e, consts: dict):
         v = val(e)
         if v is _UNKNOWN:
             return _UNKNOWN
+        if is_kind(v):
+            return v.n > 0
         if isinstance(v, tuple) and v and v[0] == "__list__":
             return len(v) > 1
         return bool(v)
@@ -139,6 +171,17 @@ def eval_atom(e, consts: dict):
         a, b = val(e.left), val(e.comparators[0])
         op = e.ops[0]
         if a is _UNKNOWN or b is _UNKNOWN:
+            return _UNKNOWN
+        if is_kind(a) or is_kind(b):
+            k, o = (a, b) if is_kind(a) else (b, a)
+            if isinstance(op, (ast.Is, ast.Eq)):
+                if o is None or isinstance(o, (str, int, float, bool)):
+                    return False
+                return _UNKNOWN
+            if isinstance(op, (ast.IsNot, ast.NotEq)):
+                if o is None or isinstance(o, (str, int, float, bool)):
+                    return True
+                return _UNKNOWN
             return _UNKNOWN
         try:
             if isinstance(op, ast.Is):
@@ -174,6 +217,8 @@ def eval_atom(e, consts: dict):
         v = val(e.args[0])
         if v is _UNKNOWN:
             return _UNKNOWN
+        if is_kind(v):
+            v = {"tuple": (), "list": [], "dict": {}}[v.kind]
         if isinstance(v, tuple) and v and v[0] == "__list__":
             v = list(v[1:])
         t = e.args[1]
@@ -224,6 +269,8 @@ class Explorer:
         self.max_states = max_states
         self.follow_exc = follow_exc
         self.visited = {}
+        self._kill_cache = {}
+        self._decide_cache = {}
         self.violations = {}
         self.states = 0
         self.paths_to_exit = 0
@@ -326,18 +373,39 @@ class Explorer:
     def _decide(self, node, val, consts):
         """-> (forced label or None, (key, polarity) to record or None)."""
         e = node.ast
-        v = eval_atom(e, consts)
+        v = eval_atom(e, consts) if consts else (eval_atom(e, consts) if isinstance(e, ast.Constant) else _UNKNOWN)
         if v is not _UNKNOWN:
             return bool(v), None
-        key, pol = normalise_atom(e)
+        info = self._decide_cache.get(node.id)
+        if info is None:
+            key, pol = normalise_atom(e)
+            info = (key, pol, _is_pure_atom(e))
+            self._decide_cache[node.id] = info
+        key, pol, pure = info
         for k, b in val:
             if k == key:
                 return (b == pol), None
-        if _is_pure_atom(e):
+        if pure:
             return None, (key, pol)
         return None, None
 
     def _kill(self, node, val, consts):
+        info = self._kill_cache.get(node.id)
+        if info is None:
+            info = self._kill_info(node)
+            self._kill_cache[node.id] = info
+        killed, newc = info
+        if not killed:
+            return val, consts
+        for n in killed:
+            consts.pop(n, None)
+        if newc:
+            consts[newc[0]] = newc[1]
+        if val:
+            val = frozenset((k, b) for k, b in val if not (_atom_names(k) & killed))
+        return val, consts
+
+    def _kill_info(self, node):
         a = node.ast
         killed = set()
         if node.kind == "stmt" and node.note == "opaque":
@@ -354,18 +422,10 @@ class Explorer:
         # constant propagation
         newc = None
         if isinstance(a, ast.Assign) and len(a.targets) == 1 and isinstance(a.targets[0], ast.Name):
-            v = const_of(a.value)
+            v = const_of(a.value, opaque=True)
             if v is not _UNKNOWN and not isinstance(v, float):
                 newc = (a.targets[0].id, v)
-        if not killed:
-            return val, consts
-        for n in killed:
-            consts.pop(n, None)
-        if newc:
-            consts[newc[0]] = newc[1]
-        if val:
-            val = frozenset((k, b) for k, b in val if not (_atom_names(k) & killed))
-        return val, consts
+        return frozenset(killed), newc
 
 
 _atom_names_cache: Dict[str, frozenset] = {}
